@@ -252,8 +252,21 @@ func c03History(x *runCtx, r *rand.Rand, c c03Config) {
 		var session struct {
 			guid, rv []byte
 		}
+		// the operator changes the owner's rendezvous configuration while this device is between SetupDevice and Done:
+		// what the device was told in message 65 is what its credential holds, and what the stored voucher has to hold
+		var tap *lab.Tap
+		if round%2 == 1 || rounds == 1 {
+			during := [][]protocol.RvInstruction{{{Variable: protocol.RVDns, Value: cborBytes(fmt.Sprintf("rv%d-later.lab", round))},
+				{Variable: protocol.RVDevPort, Value: cborBytes(uint16(7000 + round))}}}
+			tap = &lab.Tap{Request: func(msgType uint8, hdr http.Header, body *[]byte) error {
+				if msgType == 70 {
+					w.RvInfo = during
+				}
+				return nil
+			}}
+		}
 		res := step(func() error {
-			_, err := w.TO2(ctx, d, nil, lab.TO2Opts{Kex: c.suite, Cipher: c.cipher, Reuse: c.reuse}, nil)
+			_, err := w.TO2(ctx, d, nil, lab.TO2Opts{Kex: c.suite, Cipher: c.cipher, Reuse: c.reuse}, tap)
 			return err
 		})
 		x.r.Case(fmt.Sprintf("%s round %d", c, round), true, "TO2-round")
